@@ -247,7 +247,9 @@ class World:
         before = self.abstract_state()
         try:
             # CPU time of this process, not wall time: a loaded machine must not turn a slow step into a hang
-            signal.setitimer(signal.ITIMER_VIRTUAL, STEP_LIMIT_S)
+            # (tracks of a thousand fixes, thorough tier only: model and library both take longer)
+            limit = STEP_LIMIT_S * (6 if self.cfg.get("size_bias") == "huge" else 1)
+            signal.setitimer(signal.ITIMER_VIRTUAL, limit)
             try:
                 outcome = op(step) or "ok"
             finally:
@@ -256,7 +258,7 @@ class World:
             outcome = "skipped"
         except StepTimeout:
             self.fail(self.prop_of(step), "step.hang", "%s did not return within %g s of CPU time (a step "
-                      "normally takes milliseconds)" % (step["op"], STEP_LIMIT_S), "a result", "no return")
+                      "normally takes milliseconds)" % (step["op"], limit), "a result", "no return")
             outcome = "hang"
         except HarnessError:
             raise
